@@ -1,16 +1,65 @@
 package main
 
 import (
+	"crypto/ecdsa"
+	"crypto/elliptic"
+	"crypto/rand"
+	"crypto/x509"
+	"crypto/x509/pkix"
 	"encoding/json"
+	"encoding/pem"
 	"fmt"
 	"io/ioutil"
+	"math/big"
 	"net/http"
 	"net/http/httptest"
 	"net/url"
 	"path/filepath"
+	"regexp"
 	"strings"
 	"testing"
+	"time"
+
+	"github.com/Cloud-Foundations/golib/pkg/log/testlogger"
+	"github.com/Cloud-Foundations/keymaster/lib/authenticators/okta"
+	"github.com/pquerna/otp/totp"
 )
+
+// a VIP user service that knows one enabled token per user and accepts every code
+var c17ReVipUser = regexp.MustCompile(`<(?:vip:)?userId>([^<]*)</`)
+
+func c17VipHandler(w http.ResponseWriter, r *http.Request) {
+	b, _ := ioutil.ReadAll(r.Body)
+	body := string(b)
+	env := func(inner string) {
+		w.Header().Set("Content-Type", "text/xml")
+		fmt.Fprintf(w, `<?xml version="1.0" encoding="UTF-8"?><S:Envelope xmlns:S="http://schemas.xmlsoap.org/soap/envelope/"><S:Body>%s</S:Body></S:Envelope>`, inner)
+	}
+	ns := `xmlns="https://schemas.symantec.com/vip/2011/04/vipuserservices"`
+	switch {
+	case strings.Contains(body, "GetUserInfoRequest"):
+		user := "alice"
+		if m := c17ReVipUser.FindStringSubmatch(body); m != nil {
+			user = m[1]
+		}
+		env(fmt.Sprintf(`<GetUserInfoResponse %s><requestId>x</requestId><status>0000</status><statusMessage>Success</statusMessage><userId>%s</userId><userStatus>ACTIVE</userStatus><numBindings>1</numBindings><credentialBindingDetail><credentialId>TOK-%s</credentialId><credentialType>STANDARD_OTP</credentialType><credentialStatus>ENABLED</credentialStatus><bindingDetail><bindStatus>ENABLED</bindStatus></bindingDetail></credentialBindingDetail></GetUserInfoResponse>`, ns, user, user))
+	case strings.Contains(body, "AuthenticateCredentialsRequest"):
+		env(fmt.Sprintf(`<AuthenticateCredentialsResponse %s><requestId>x</requestId><status>0000</status><statusMessage>m</statusMessage></AuthenticateCredentialsResponse>`, ns))
+	default:
+		http.Error(w, "unknown call", 400)
+	}
+}
+
+// an Okta authn API that asks every user for a second factor and accepts every pass code
+func c17OktaHandler(w http.ResponseWriter, r *http.Request) {
+	w.Header().Set("Content-Type", "application/json")
+	if strings.Contains(r.URL.Path, "/factors/") {
+		json.NewEncoder(w).Encode(okta.OktaApiPrimaryResponseType{Status: "SUCCESS"})
+		return
+	}
+	json.NewEncoder(w).Encode(okta.OktaApiPrimaryResponseType{StateToken: "st", ExpiresAtString: "2099-01-01T00:00:00.000Z", Status: "MFA_REQUIRED",
+		Embedded: okta.OktaApiEmbeddedDataResponseType{Factor: []okta.OktaApiMFAFactorsType{{Id: "f1", FactorType: "token:software:totp", VendorName: "OKTA"}}}})
+}
 
 // WHATWG: strip tab/CR/LF; a location that starts with one slash-or-backslash followed by
 // neither slash nor backslash is path-absolute, i.e. same origin; anything else leaves (or
@@ -94,7 +143,7 @@ func c17Encoded() []string {
 }
 
 func TestVerif_C17(t *testing.T) {
-	res := newVerifResult("login_destination strings: exhaustive over {/ \\\\ . a TAB ? # % : @}^<=L (L=4 quick, 5 thorough) through getLoginDestination+http.Redirect, a structured adversarial list, every raw/percent-encoded pair of dangerous bytes after the leading slash, and seeded random strings through POST /api/v0/login (text/html); the federated-login flow; a second-factor success path (bootstrap OTP) with hostile values in the form field, the query string, Referer, Origin and forwarding headers; non-trivial = the filter accepted the string (redirect target differs from the profile page); distinct by (input, Location)")
+	res := newVerifResult("login_destination strings: exhaustive over {/ \\\\ . a TAB ? # % : @}^<=L (L=4 quick, 5 thorough) through getLoginDestination+http.Redirect, a structured adversarial list, every raw/percent-encoded pair of dangerous bytes after the leading slash, and seeded random strings through POST /api/v0/login (text/html); the federated-login flow; the success path of every redirecting second-factor handler (bootstrap OTP, TOTP, VIP, Okta) with hostile values in the form field, the query string, Referer, Origin and forwarding headers; non-trivial = the filter accepted the string (redirect target differs from the profile page); distinct by (input, Location)")
 	// a fake OAuth2 provider for the federated-login flow
 	provider := httptest.NewServer(http.HandlerFunc(func(w http.ResponseWriter, r *http.Request) {
 		w.Header().Set("Content-Type", "application/json")
@@ -121,7 +170,41 @@ func TestVerif_C17(t *testing.T) {
 		c.Base.AdminUsers = []string{"admin"}
 		c.Base.PasswordAttemptGlobalBurstLimit = 1000000
 		c.Base.PasswordAttemptGlobalRateLimit = 1000000
+		// every second-factor handler that redirects to the supplied destination must be reachable
+		c.Base.EnableLocalTOTP = true
+		k, _ := ecdsa.GenerateKey(elliptic.P256(), rand.Reader)
+		tmpl := &x509.Certificate{SerialNumber: big.NewInt(7), Subject: pkix.Name{CommonName: "verif vip client"}, NotBefore: time.Now().Add(-time.Hour), NotAfter: time.Now().Add(48 * time.Hour)}
+		der, _ := x509.CreateCertificate(rand.Reader, tmpl, tmpl, &k.PublicKey, k)
+		kb, _ := x509.MarshalECPrivateKey(k)
+		ioutil.WriteFile(filepath.Join(dir, "vip-cert.pem"), pem.EncodeToMemory(&pem.Block{Type: "CERTIFICATE", Bytes: der}), 0600)
+		ioutil.WriteFile(filepath.Join(dir, "vip-key.pem"), pem.EncodeToMemory(&pem.Block{Type: "EC PRIVATE KEY", Bytes: kb}), 0600)
+		c.SymantecVIP.Enabled = true
+		c.SymantecVIP.CertFile = filepath.Join(dir, "vip-cert.pem")
+		c.SymantecVIP.KeyFile = filepath.Join(dir, "vip-key.pem")
 	})
+	vipSrv := httptest.NewUnstartedServer(http.HandlerFunc(c17VipHandler))
+	vipSrv.Config.SetKeepAlivesEnabled(false)
+	vipSrv.StartTLS()
+	defer vipSrv.Close()
+	if vc := env.state.Config.SymantecVIP.Client; vc != nil {
+		vc.VipUserServicesURL = vipSrv.URL + "/query"
+		vc.VipUserServiceAuthenticationURL = vipSrv.URL + "/auth"
+		vc.RootCAs = x509.NewCertPool()
+		vc.RootCAs.AddCert(vipSrv.Certificate())
+	} else {
+		t.Fatal("VIP client not configured")
+	}
+	oktaSrv := httptest.NewServer(http.HandlerFunc(c17OktaHandler))
+	defer oktaSrv.Close()
+	// main() registers the Okta second-factor routes when an Okta domain is configured; the authenticator
+	// itself is swapped in only around the Okta probes (the login probes use the htpasswd backend)
+	env.state.Config.Okta.Domain = "verif"
+	env.state.Config.Okta.Enable2FA = true
+	env.handler = env.buildHandler()
+	oktaAuth, err := okta.NewPublicTesting(oktaSrv.URL+"/api/v1/authn", testlogger.New(t))
+	if err != nil {
+		t.Fatal(err)
+	}
 	maxLen := 4
 	nRandom := 600
 	if verifThorough() {
@@ -265,9 +348,28 @@ func TestVerif_C17(t *testing.T) {
 	// Referer, Origin, forwarding headers) must be ignored — for the model they are not inputs, so
 	// the expected Location of those probes is the profile page
 	adminCookie := env.cookie("admin", AuthTypePassword|AuthTypeU2F)
-	if err := env.state.SaveUserProfile("alice", &userProfile{}); err != nil { // the admin endpoint wants an existing profile
+	if err := env.state.SaveUserProfile("alice", &userProfile{}); err != nil { // the admin endpoint wants an existing profile without devices
 		t.Fatal(err)
 	}
+	totpKey, err := totp.Generate(totp.GenerateOpts{Issuer: "verif", AccountName: "bob"})
+	if err != nil {
+		t.Fatal(err)
+	}
+	saveBob := func() { // an existing profile with one enabled TOTP device that has accepted nothing yet
+		p, _, _, err := env.state.LoadUserProfile("verif-nobody")
+		if err != nil {
+			t.Fatal(err)
+		}
+		enc, err := env.state.encryptWithPublicKeys([]byte(totpKey.Secret()))
+		if err != nil {
+			t.Fatal(err)
+		}
+		p.TOTPAuthData[1] = &totpAuthData{CreatedAt: time.Now(), EncryptedSecret: enc, Enabled: true}
+		if err := env.state.SaveUserProfile("bob", p); err != nil {
+			t.Fatal(err)
+		}
+	}
+	saveBob()
 	issueOtp := func() string {
 		f := url.Values{}
 		f.Set("username", "alice")
@@ -281,15 +383,46 @@ func TestVerif_C17(t *testing.T) {
 		}
 		return d.BootstrapOTPValue
 	}
-	secondFactor := func(hostile, channel string) {
-		otp := issueOtp()
+	// one prover per second-factor handler that redirects to the supplied destination: it returns the
+	// endpoint and a value that handler will accept for alice right now
+	type prover struct {
+		name string
+		user string
+		prep func() (path, otp string)
+		done func()
+	}
+	htpasswdChecker := env.state.passwordChecker
+	provers := []prover{
+		{"bootstrapOtp", "alice", func() (string, string) { return bootstrapOtpAuthPath, issueOtp() }, func() {}},
+		{"totp", "bob", func() (string, string) {
+			saveBob() // forget the last accepted time step: every probe presents a fresh code
+			env.state.totpLocalTateLimitMutex.Lock()
+			env.state.totpLocalRateLimit = map[string]totpRateLimitInfo{} // the per-user spacing is C14's subject
+			env.state.totpLocalTateLimitMutex.Unlock()
+			code, err := totp.GenerateCode(totpKey.Secret(), time.Now())
+			if err != nil {
+				return totpAuthPath, ""
+			}
+			return totpAuthPath, code
+		}, func() {}},
+		{"vip", "alice", func() (string, string) { return vipAuthPath, "123456" }, func() {}},
+		{"okta", "alice", func() (string, string) {
+			env.state.passwordChecker = oktaAuth
+			if ok, err := oktaAuth.PasswordAuthenticate("alice", []byte("pw")); err != nil || !ok {
+				return okta2FAauthPath, ""
+			}
+			return okta2FAauthPath, "123456"
+		}, func() { env.state.passwordChecker = htpasswdChecker }},
+	}
+	secondFactor := func(pr prover, hostile, channel string) {
+		target, otp := pr.prep()
+		defer pr.done()
 		if otp == "" {
-			res.hit(verifHit{Key: "C17:harness:bootstrap-otp", Oracle: "harness", What: "could not issue a bootstrap OTP", Case: channel})
+			res.hit(verifHit{Key: "C17:harness:" + pr.name, Oracle: "harness", What: "could not obtain a second-factor value the handler accepts", Case: channel})
 			return
 		}
 		f := url.Values{}
 		f.Set("OTP", otp)
-		target := bootstrapOtpAuthPath
 		modelInput := ""
 		switch channel {
 		case "form":
@@ -315,22 +448,39 @@ func TestVerif_C17(t *testing.T) {
 			req.Header.Set("X-Rewrite-Url", hostile)
 		}
 		req.Header.Set("Accept", "text/html")
-		req.AddCookie(env.cookie("alice", AuthTypePassword))
+		req.AddCookie(env.cookie(pr.user, AuthTypePassword))
 		rr, _ := env.serve(req)
 		if rr.Code != 302 {
-			res.bump("2fa:not-redirected:" + channel)
+			res.bump("2fa:not-redirected:" + pr.name + ":" + channel)
 			return
 		}
-		record(modelInput, rr.Header().Get("Location"), "bootstrapOtp:"+channel, true)
+		res.bump("2fa:redirected:" + pr.name)
+		record(modelInput, rr.Header().Get("Location"), pr.name+":"+channel, true)
 		if modelInput == "" && rr.Header().Get("Location") != profilePath {
-			res.hit(verifHit{Key: "C17:unfiltered-channel:bootstrapOtp:" + channel, Oracle: "a second-factor redirect target is taken from a request channel other than the filtered login_destination field",
-				What: fmt.Sprintf("%s carrying %q yields Location %q", channel, hostile, rr.Header().Get("Location")), Case: map[string]interface{}{"channel": channel, "value": []byte(hostile)}, Observed: rr.Header().Get("Location")})
+			res.hit(verifHit{Key: "C17:unfiltered-channel:" + pr.name + ":" + channel, Oracle: "a second-factor redirect target is taken from a request channel other than the filtered login_destination field",
+				What: fmt.Sprintf("%s carrying %q yields Location %q", channel, hostile, rr.Header().Get("Location")), Case: map[string]interface{}{"handler": pr.name, "channel": channel, "value": []byte(hostile)}, Observed: rr.Header().Get("Location")})
 		}
 	}
 	twoFA := []string{"/profile/", "//evil.com/x", "/\\evil.com", "//evil.com/landing?x=1", "/./\\evil.com", "/%2Fevil.com", "/%2f%2fevil.com", "/\t/evil.com", "https://evil.com/", "/a/..//evil.com", "/@evil.com", "/ok/path?next=//evil.com"}
-	for _, h := range twoFA {
-		for _, ch := range []string{"form", "query", "referer-same-host", "referer-same-host-query", "origin+referer", "forwarded"} {
-			secondFactor(h, ch)
+	// the dangerous-pair strings of (2b) that the login handler saw go through every second-factor handler
+	// as well (form channel), so a handler-specific decoding or filtering step is met with the same inputs
+	twoFAForm := append([]string{}, twoFA...)
+	for i, s := range c17Encoded() {
+		if i%7 == 0 || verifThorough() {
+			twoFAForm = append(twoFAForm, s)
+		}
+	}
+	for _, pr := range provers {
+		for _, h := range twoFA {
+			for _, ch := range []string{"form", "query", "referer-same-host", "referer-same-host-query", "origin+referer", "forwarded"} {
+				secondFactor(pr, h, ch)
+			}
+		}
+		for _, h := range twoFAForm[len(twoFA):] {
+			secondFactor(pr, h, "form")
+		}
+		if res.counts["2fa:redirected:"+pr.name] == 0 {
+			res.hit(verifHit{Key: "C17:harness:no-success:" + pr.name, Oracle: "harness", What: "the success path of this second-factor handler was never reached", Case: pr.name})
 		}
 	}
 	// Coq case file
